@@ -42,7 +42,9 @@ MSGS = ["bump version {old_version} -> {new_version}", "release {new_version}", 
         "chore(release): {new_version}", "v{new_version}"]
 DECOR = [('__version__ = "{version}"'), ("version='{version}'"), ("tag: {version}"), ("pkg=={pep440_version}"),
          ("badge/latest%20version-{version}-blue"), ("100%% {version}"),
-         ("badge/{version}-blue"), ("{version}"), ("rev {version};")]
+         ("badge/{version}-blue"), ("{version}"), ("rev {version};"),
+         # a docstring line and a CSV cell: as TOML basic strings they start with escaped quotes / with a comma
+         ('"""mypkg {version}"""'), (",{version},")]
 
 
 def cases(ctx):
